@@ -4,7 +4,7 @@ cd /verif
 out=.cache/seed_detect_any.log
 : > $out
 for S in "$@"; do
-  P=$(echo $S | sed 's/[bcde]$//')
+  P=$(echo $S | sed 's/[bcdef]$//')
   if ! git -C /repo apply /verif/seeded/$S/patch.diff 2>>$out; then echo "== $S: PATCH DOES NOT APPLY" >> $out; git -C /repo checkout -- .; continue; fi
   echo "== $S applied: $(git -C /repo diff --stat | tail -1)" >> $out
   ./check $P --tier quick 2>&1 | grep -E "^VIOLATION|theorems" | cut -c1-220 >> $out
